@@ -69,7 +69,7 @@ pub fn profile(name: &str) -> Profile {
         "c03" => Profile { name: "c03", adversarial: true, stale_events: true, shared: true, persistent: true, takeover: true, wills: true, retained: true, v5: true, steps: (20, 200), ..base },
         "c06" => Profile { name: "c06", ..base },
         "c08" => Profile { name: "c08", persistent: true, takeover: true, retained: true, clients: (2, 4), ..base },
-        "c09" => Profile { name: "c09", clients: (2, 3), ..base },
+        "c09" => Profile { name: "c09", clients: (2, 3), retained: true, ..base },
         "c14" => Profile { name: "c14", adversarial: true, persistent: true, late_signals: true, clients: (3, 5), ..base },
         "c15" => Profile { name: "c15", retained: true, shared: true, wills: true, clients: (2, 4), big_bursts: false, ..base },
         "c16" => Profile { name: "c16", wills: true, retained: true, clients: (2, 4), big_bursts: false, ..base },
@@ -500,6 +500,7 @@ impl<'a> Gen<'a> {
             if self.p.stale_events { 3 } else if self.p.late_signals { 2 } else { 0 },
             3,  // run to idle
             if self.p.takeover { 2 } else { 0 },
+            2, // one batch: publishes followed by a packet that ends the connection
         ];
         match self.rng.weighted(&w) {
             0 => {
@@ -551,6 +552,23 @@ impl<'a> Gen<'a> {
             }
             12 => {
                 self.run_to_idle();
+            }
+            14 => {
+                // accepted publishes and the connection's end handled in ONE device-data batch
+                let burst = self.rng.range(1, 3);
+                self.publish(i, burst);
+                let Some(id) = self.sims[i].id else { return };
+                if self.rng.chance(1, 2) {
+                    self.push(i, "disc".to_string());
+                } else {
+                    let bad = *self.rng.pick(&[0u16, 7, 101]);
+                    self.push(i, format!("puback {bad}"));
+                }
+                self.signal(i);
+                self.sims[i].alive = false;
+                self.sims[i].old_ids.push(id);
+                self.sims[i].id = None;
+                self.st.tag("publish-then-close-batch");
             }
             _ => {
                 // takeover: another link connects with the same client id
